@@ -3,8 +3,8 @@
 # turn, runs the check of its property (quick tier), undoes it; one line per change in .scratch/seeded_all.log.
 # Committed evidence is restored after each run.
 cd /verif
-: > .scratch/seeded_all.log
-for d in seeded seeded3 seeded4 seeded5 seeded6; do
+[ -n "$APPEND" ] || : > .scratch/seeded_all.log
+for d in ${BATCHES:-seeded seeded3 seeded4 seeded5 seeded6 seeded7}; do
   for id in $(ls $d); do
     f=$d/$id/patch.diff; [ -f $d/$id/patch.rebased.diff ] && f=$d/$id/patch.rebased.diff
     [ -f $f ] || continue
